@@ -241,60 +241,77 @@ func c10Validation(c *eng.Ctx, ns *ssa.Function) {
 // waiter: a function that always blocks in a select over ctx.Done() and
 // time.After(d) of its own parameters.
 func isWaiter(f *ssa.Function) (durIdx int, ok bool) {
-	if f == nil || f.Blocks == nil {
+	di, _, ok := isWaiterX(f)
+	if di < 0 {
 		return -1, false
 	}
-	var ctxP, durP *ssa.Parameter
+	return di, ok
+}
+
+// isWaiterX also accepts a waiter whose pause is kept in a Duration field of
+// an object it is given (a back-off state): durIdx is then -1 and fld names
+// the field.
+func isWaiterX(f *ssa.Function) (durIdx int, fld *eng.FieldRef, ok bool) {
+	if f == nil || f.Blocks == nil {
+		return -1, nil, false
+	}
+	var ctxP *ssa.Parameter
 	for _, prm := range f.Params {
 		if eng.IsNamed(prm.Type(), "context", "Context") {
 			ctxP = prm
 		}
-		if eng.IsNamed(prm.Type(), "time", "Duration") {
-			durP = prm
-		}
 	}
-	if ctxP == nil || durP == nil {
-		return -1, false
+	if ctxP == nil {
+		return -1, nil, false
 	}
 	good := map[*ssa.BasicBlock]bool{}
+	var timer ssa.Value
 	eng.Instrs(f, func(in ssa.Instruction) {
 		sel, isSel := in.(*ssa.Select)
 		if !isSel || !sel.Blocking {
 			return
 		}
-		hasDone, hasTimer, other := false, false, false
+		hasDone, other := false, false
+		var tv ssa.Value
 		for _, st := range sel.States {
 			call, _ := eng.TupleCall(st.Chan)
 			switch {
 			case st.Dir == types.RecvOnly && call != nil && call.Call.IsInvoke() && call.Call.Method.Name() == "Done" && eng.Origin(call.Call.Value) == ssa.Value(ctxP):
 				hasDone = true
-			case st.Dir == types.RecvOnly && call != nil && eng.CalleeIs(&call.Call, "time", "After") && eng.Origin(call.Call.Args[0]) == ssa.Value(durP):
-				hasTimer = true
+			case st.Dir == types.RecvOnly && call != nil && eng.CalleeIs(&call.Call, "time", "After"):
+				tv = call.Call.Args[0]
 			default:
 				other = true
 			}
 		}
-		if hasDone && hasTimer && !other {
+		if hasDone && tv != nil && !other {
 			good[sel.Block()] = true
+			timer = tv
 		}
 	})
-	if len(good) == 0 {
-		return -1, false
+	if len(good) != 1 {
+		return -1, nil, false
 	}
-	// every path from entry to return passes such a select
 	hit, _ := eng.Search(f, nil, nil, func(x ssa.Instruction) bool { return good[x.Block()] }, eng.IsReturn)
 	if good[f.Blocks[0]] {
 		hit = nil
 	}
 	if hit != nil {
-		return -1, false
+		return -1, nil, false
 	}
-	for i, prm := range f.Params {
-		if prm == durP {
-			return i, true
+	if prm, isP := eng.Origin(timer).(*ssa.Parameter); isP && eng.IsNamed(prm.Type(), "time", "Duration") {
+		for i, q := range f.Params {
+			if q == prm {
+				return i, nil, true
+			}
 		}
 	}
-	return -1, false
+	if fr, base, isF := eng.LoadedField(timer); isF && eng.IsNamed(timer.Type(), "time", "Duration") {
+		if _, isP := eng.Origin(base).(*ssa.Parameter); isP {
+			return -1, &fr, true
+		}
+	}
+	return -1, nil, false
 }
 
 func c10Init(c *eng.Ctx, init *ssa.Function) { c10InitIn(c, init, false) }
@@ -310,6 +327,7 @@ func c10InitIn(c *eng.Ctx, init *ssa.Function, inner bool) {
 	var fetches []*ssa.Call
 	var waits []*ssa.Call
 	waitDur := map[*ssa.Call]ssa.Value{}
+	waitField := map[*ssa.Call]*eng.FieldRef{} // the pause lives in a field of a back-off object
 	eng.Instrs(init, func(in ssa.Instruction) {
 		call, ok := in.(*ssa.Call)
 		if !ok {
@@ -319,9 +337,13 @@ func c10InitIn(c *eng.Ctx, init *ssa.Function, inner bool) {
 			fetches = append(fetches, call)
 		}
 		if cal := eng.Callee(&call.Call); cal != nil {
-			if di, isW := isWaiter(eng.Unwrap(cal)); isW {
+			if di, fld, isW := isWaiterX(eng.Unwrap(cal)); isW {
 				waits = append(waits, call)
-				waitDur[call] = call.Call.Args[di]
+				if fld != nil {
+					waitField[call] = fld
+				} else {
+					waitDur[call] = call.Call.Args[di]
+				}
 			}
 		}
 	})
@@ -657,6 +679,10 @@ func c10InitIn(c *eng.Ctx, init *ssa.Function, inner bool) {
 
 	// R-C10-4 bounded back-off
 	for _, w := range waits {
+		if fld := waitField[w]; fld != nil {
+			c10FieldBackoff(c, init, w, *fld)
+			continue
+		}
 		d := waitDur[w]
 		leaves, phis := eng.PhiLeaves(eng.Origin(d))
 		if len(phis) == 0 {
@@ -783,4 +809,67 @@ func fetchName(call *ssa.Call) ssa.Value {
 		}
 	}
 	return nil
+}
+
+// c10FieldBackoff: R-C10-4 when the pause is a Duration field of a back-off
+// object.  Every store to that field anywhere in the package is a source: a
+// constant in (0, 10s], or a doubling of the field's own value under
+// field < C with 2C <= 10s.
+func c10FieldBackoff(c *eng.Ctx, init *ssa.Function, w *ssa.Call, fld eng.FieldRef) {
+	p := c.P
+	n := 0
+	sameField := func(v ssa.Value) bool {
+		fr, _, isF := eng.LoadedField(v)
+		return isF && fr.Name == fld.Name && types.Identical(eng.Deref(fr.Owner), eng.Deref(fld.Owner))
+	}
+	for _, f := range p.PkgFuncs(setecPkg) {
+		for _, a := range eng.FieldAccesses(f) {
+			if a.Kind != "store" || a.Field.Name != fld.Name || !types.Identical(eng.Deref(a.Field.Owner), eng.Deref(fld.Owner)) {
+				continue
+			}
+			st, isSt := a.In.(*ssa.Store)
+			if !isSt {
+				continue
+			}
+			n++
+			site := "back-off source " + eng.InstrStr(st) + " in " + eng.FName(f)
+			if k, isK := eng.ConstInt(st.Val); isK {
+				c.Check(time.Duration(k) > 0 && time.Duration(k) <= 10*time.Second, "R-C10-4", f, st.Pos(), site, "initial pause: positive, at most a few seconds", "")
+				continue
+			}
+			okk := false
+			detail := "not a doubling of the field"
+			if b, isB := eng.Origin(st.Val).(*ssa.BinOp); isB {
+				dbl := false
+				if b.Op == token.ADD && sameField(b.X) && sameField(b.Y) {
+					dbl = true
+				}
+				if b.Op == token.MUL && sameField(b.X) {
+					if k, isK := eng.ConstInt(b.Y); isK && k == 2 {
+						dbl = true
+					}
+				}
+				if dbl {
+					detail = "the doubling is not edge-dominated by field < constant"
+					for _, cond := range eng.FactsAt(st) {
+						op, x, y, isCmp := cond.Cmp()
+						if !isCmp || op != token.LSS || !sameField(x) {
+							continue
+						}
+						if cap, isK := eng.ConstInt(y); isK {
+							if 2*time.Duration(cap) <= 10*time.Second {
+								okk = true
+							} else {
+								detail = "cap " + time.Duration(cap).String() + " allows pauses up to " + (2 * time.Duration(cap)).String()
+							}
+						}
+					}
+				}
+			}
+			c.Check(okk, "R-C10-4", f, st.Pos(), site, "the pause only grows by doubling under v < C with 2C <= 10s (pausing at most a few seconds between rounds)", detail)
+		}
+	}
+	if n == 0 {
+		c.Bad("R-C10-4", init, w.Pos(), "wait duration field "+fld.Name, "initialised to a positive pause", "the field is never assigned: a zero pause is a busy retry")
+	}
 }
